@@ -129,12 +129,7 @@ func NewFollowerController(config Config, namespace string, shardId int64, wf wa
 	fc.applyEntriesCond = concurrent.NewConditionContext(fc)
 
 	var err error
-	if fc.wal, err = wf.NewWal(namespace, shardId, fc); err != nil {
-		return nil, err
-	}
-
-	fc.lastAppendedOffset = fc.wal.LastOffset()
-
+	// The DB needs to be opened before the WAL, because the WAL recovery uses the commit offset
 	if fc.db, err = kv.NewDB(namespace, shardId, kvFactory, config.NotificationsRetentionTime, time.SystemClock); err != nil {
 		return nil, err
 	}
@@ -155,6 +150,11 @@ func NewFollowerController(config Config, namespace string, shardId int64, wf wa
 	}
 	fc.commitOffset.Store(commitOffset)
 
+	if fc.wal, err = wf.NewWal(namespace, shardId, fc); err != nil {
+		return nil, err
+	}
+
+	fc.lastAppendedOffset = fc.wal.LastOffset()
 	if fc.lastAppendedOffset == wal.InvalidOffset {
 		// The wal is empty, though we have restored from snapshot
 		fc.lastAppendedOffset = commitOffset
